@@ -183,3 +183,12 @@ def gated_add100(x):
   """add100 whose evaluation blocks until the harness opens GATE (an answer that arrives at a chosen moment)."""
   GATE.wait(10)
   return x + 100
+
+
+def two_agg_pipeline(n, shard_index=0, num_shards=1):
+  """two named stages that both aggregate: 'a' source -> +100 -> collect as 'x'; 'b' -> +1 -> collect as 'y'"""
+  from ml_metrics._src.chainables import io, transform
+  ds = io.SequenceDataSource(list(range(n))).shard(shard_index, num_shards)
+  a = transform.TreeTransform.new(name='a').data_source(ds).apply(fn=add100).aggregate(fn=CollectInPlace(), output_keys='x')
+  b = transform.TreeTransform.new(name='b').apply(fn=inc).aggregate(fn=CollectInPlace(), output_keys='y')
+  return a.chain(b)
